@@ -226,9 +226,11 @@ def make_solid(vmf: VMF, o: dict) -> Solid:
 
 def make_output(o: dict, k: int = 0) -> Output:
     if o.get('inst'):
-        return Output('OnTrigger', f'inst{k}', 'FireUser1', 'par am', 0.5, times=1, inst_out='rl_out', inst_in='rl_in',
-                      comma_sep=bool(o.get('comma')))
-    return Output(f'OnUser{k + 1}', f'target{k}', 'Trigger', '', 1.25, times=-1, comma_sep=bool(o.get('comma')))
+        # fire counts other than Hammer's -1 / 1 are legal (parse, combine and repr handle them):
+        # generic values, so that a copy which only keeps "once or not" shows
+        return Output('OnTrigger', f'inst{k}', 'FireUser1', 'par am', 0.5, times=(1, 5, 0)[k % 3], inst_out='rl_out',
+                      inst_in='rl_in', comma_sep=bool(o.get('comma')))
+    return Output(f'OnUser{k + 1}', f'target{k}', 'Trigger', '', 1.25, times=(3, -1, 0, 2)[k % 4], comma_sep=bool(o.get('comma')))
 
 
 def make_entity(vmf: VMF, o: dict) -> Entity:
